@@ -364,12 +364,29 @@ func (m *Model) buildMap(named *types.Named, iface string) *MapModel {
 				}
 			})
 			switch {
-			case atomicAdd:
-				mm.AddSize = f
-			case plainStore && res.Len() == 0:
-				mm.AddPlain = f
 			case atomicLoad && res.Len() == 1:
 				mm.SumSize = f
+			case (atomicAdd || plainStore) && res.Len() == 0:
+				// counter update helpers: told apart by who calls them (writers vs the resize copy loop)
+				fromCore, fromResize := false, false
+				for _, s := range CallSitesOf(p.Funcs, f) {
+					if s.Parent() == mm.Core {
+						fromCore = true
+					}
+					if s.Parent() == mm.Resize {
+						fromResize = true
+					}
+				}
+				switch {
+				case fromCore && !fromResize:
+					mm.AddSize = f
+				case fromResize && !fromCore:
+					mm.AddPlain = f
+				case atomicAdd:
+					mm.AddSize = f
+				default:
+					mm.AddPlain = f
+				}
 			}
 		}
 		if recv == mm.Name && res.Len() == 1 && len(f.Params) <= 2 {
@@ -591,6 +608,7 @@ type LockEvent struct {
 	Canon   string // canonical lock identity within the function
 	Key     string // Owner.Field
 	Root    ssa.Value
+	AddrV   ssa.Value // the address expression of the lock word (or of the wrapper's argument)
 	steps   []string
 }
 
@@ -622,10 +640,10 @@ func (m *Model) LockEventOfCall(c ssa.CallInstruction) *LockEvent {
 	switch {
 	case m.Acquire[cal] && len(args) == 1:
 		a := Addr(args[0])
-		ev = &LockEvent{Acquire: true, Canon: a.Canon(), Key: a.Key(), Root: a.Root, steps: a.Steps}
+		ev = &LockEvent{Acquire: true, Canon: a.Canon(), Key: a.Key(), Root: a.Root, AddrV: args[0], steps: a.Steps}
 	case m.Release[cal] && len(args) == 1:
 		a := Addr(args[0])
-		ev = &LockEvent{Acquire: false, Canon: a.Canon(), Key: a.Key(), Root: a.Root, steps: a.Steps}
+		ev = &LockEvent{Acquire: false, Canon: a.Canon(), Key: a.Key(), Root: a.Root, AddrV: args[0], steps: a.Steps}
 	default:
 		if w, ok := m.Wrappers[cal]; ok && w.Param < len(args) {
 			a := Addr(args[w.Param])
@@ -634,13 +652,13 @@ func (m *Model) LockEventOfCall(c ssa.CallInstruction) *LockEvent {
 			if len(w.Steps) == 0 {
 				key = a.Key()
 			}
-			ev = &LockEvent{Acquire: w.Acquire, Canon: a.Canon(), Key: key, Root: a.Root, steps: a.Steps}
+			ev = &LockEvent{Acquire: w.Acquire, Canon: a.Canon(), Key: key, Root: a.Root, AddrV: args[w.Param], steps: a.Steps}
 			break
 		}
 		id := FuncID(cal)
 		if id == "(*sync.Mutex).Lock" || id == "(*sync.Mutex).Unlock" || id == "(*sync.Mutex).TryLock" {
 			a := Addr(args[0])
-			ev = &LockEvent{Acquire: id != "(*sync.Mutex).Unlock", Canon: a.Canon(), Key: a.Key(), Root: a.Root, steps: a.Steps}
+			ev = &LockEvent{Acquire: id != "(*sync.Mutex).Unlock", Canon: a.Canon(), Key: a.Key(), Root: a.Root, AddrV: args[0], steps: a.Steps}
 		}
 	}
 	if ev == nil {
